@@ -81,6 +81,11 @@ pub fn draw_value_size(r: &mut Rng, big_ok: bool) -> usize {
     }
 }
 
+/// Values in the megabytes (above any plausible internal limit); drawn in one episode out of eight.
+pub fn draw_huge_size(r: &mut Rng) -> usize {
+    *r.pick(&[1_048_576usize - 40, 1_048_577, 1_300_000, 2_500_000, 4_200_000])
+}
+
 pub fn draw_conf(r: &mut Rng) -> Conf {
     let mut c = Conf::default();
     c.max_file_size = *r.pick(&[0u64, 1, 64, 64, 300, 300, 1000, 4096, 4096, 65_536, 2 * 1024 * 1024 * 1024]);
@@ -139,6 +144,8 @@ pub struct Eng {
     pub vcount: u64,
     pub f: Feats,
     pub big_ok: bool,
+    /// this episode also writes a few values of 1-4 MB
+    pub huge_ok: bool,
     pub merge_outputs: BTreeSet<u64>,
     pub last_merge: Option<MergeInfo>,
 }
@@ -162,6 +169,7 @@ impl Eng {
             vcount: 0,
             f: Feats::default(),
             big_ok,
+            huge_ok: false,
             merge_outputs: BTreeSet::new(),
             last_merge: None,
         }
@@ -377,7 +385,7 @@ impl Eng {
         let res = match w {
             0 => {
                 let ki = self.r.usize_below(nk);
-                let sz = draw_value_size(&mut self.r, self.big_ok);
+                let sz = if self.huge_ok && self.r.chance(1, 25) { draw_huge_size(&mut self.r) } else { draw_value_size(&mut self.r, self.big_ok) };
                 self.do_set(ki, sz)
             }
             1 => {
